@@ -8,6 +8,7 @@
     harness/oracle_wire.py) are judged by TLC against specs/ResponseTrace.tla.
 """
 import json
+import time
 import os
 
 import tlc
@@ -285,7 +286,7 @@ def c02(ctx):
     for t, m in list(zip(traces, metas))[:2] + list(zip(traces, metas))[-2:]:
         ctx.sample({"rq": t["rq"], "app": m["app"], "wk": m["wk"], "events": t["ev"]})
     ctx.assumptions += ["well-behaved application = declared Content-Length equals produced length, no body for HEAD/204/304",
-                        "sockets are scripted in-process objects (sendfile emulated with os.pread); TLS not run",
+                        "sockets are scripted in-process objects (sendfile emulated with os.pread); TLS is exercised in C05 only",
                         "bytes -> response records by harness/oracle_wire.py (strict RFC 9112 response reader)"]
 
 
@@ -319,22 +320,46 @@ def real_exchanges(ctx, traces, metas):
         for clv, offv, ver in ((10000, 1, 11), (8193, 0, 11), (20000, 1, 10), (8192, 0, 11)):
             lst.append(({"ver": ver, "head": False, "conn": "keep"},
                         {"status": 200, "cl": clv, "prod": "file", "chunks": [70000], "off": offv}))
+        # a response that takes longer than the keep-alive time to produce (the idle timer must not run meanwhile)
+        for clv in (300, NOCL):
+            lst.append(({"ver": 11, "head": False, "conn": "keep"},
+                        {"status": 200, "cl": clv, "prod": "iter", "chunks": [100, 100, 100], "off": 0, "d": 0.9}))
+        # a large response on a REUSED keep-alive connection to a client that starts reading late
+        for clv in (8400000, NOCL):
+            lst.append(({"ver": 11, "head": False, "conn": "keep"},
+                        {"status": 200, "cl": clv, "prod": "iter", "chunks": [70000], "rep": 120, "off": 0, "reuse": True}))
         progs.append((wkc, lst))
+    # the same over TLS listeners (sendfile is not used there: the file is copied through the TLS layer)
+    for wkc in (["gthread"] if ctx.quick else classes):
+        progs.append((wkc + "+tls", [x for x in progs[classes.index(wkc)][1] if x[1]["prod"] in ("file", "iter")][:12]))
 
     def one_server(item, i):
         wkc, lst = item
-        s = rp.Server(wkc, workers=1, threads=2 if wkc == "gthread" else None, args=["--keep-alive", "2"], name="c02")
+        tls = wkc.endswith("+tls")
+        wkc = wkc.split("+")[0]
+        s = rp.Server(wkc, workers=1, threads=2 if wkc == "gthread" else None, args=["--keep-alive", "2"], name="c02", tls=tls)
         out = []
         try:
             s.start()
             s.wait_booted(1)
             for rq, ap in lst:
+                if ap.get("reuse") and wkc == "sync":
+                    continue           # the sync worker serves one request per connection
                 path = "/gen?prod=%s&sizes=%s&cl=%s&status=%d&off=%d" % (
                     ap["prod"], ",".join(map(str, ap["chunks"])), "none" if ap["cl"] == NOCL else ap["cl"], ap["status"], ap["off"])
+                if ap.get("d"):
+                    path += "&d=%s" % ap["d"]
+                if ap.get("rep"):
+                    path += "&rep=%d" % ap["rep"]
                 c = s.connect(timeout=8)
+                if ap.get("reuse"):
+                    st0, body0, info0 = s.get("/pid", sock=c, keepalive=True)
+                    time.sleep(0.3)          # the connection is parked in the worker now
                 c.sendall(request_bytes(rq, uri=path))
+                if ap.get("reuse"):
+                    time.sleep(1.2)          # the client reads late: the server's send blocks on a full socket buffer
                 wire, closed = b"", False
-                c.settimeout(1.2)
+                c.settimeout(1.2 + (4 * ap["d"] if ap.get("d") else 0))
                 try:
                     while True:
                         d = c.recv(1 << 16)
@@ -351,9 +376,9 @@ def real_exchanges(ctx, traces, metas):
         finally:
             s.cleanup()
         return wkc, out
-    for wkc, out in _parallel(progs, one_server, par=4):
+    for wkc, out in _parallel(progs, one_server, par=5):
         for rq, ap, wire, closed in out:
-            chunks = chunk_bytes(ap["chunks"])
+            chunks = chunk_bytes(ap["chunks"] * ap.get("rep", 1))
             produced = b"".join(chunks)
             if ap["prod"] in ("file", "filenofd"):
                 produced = produced[ap["off"]:]
